@@ -5,6 +5,7 @@ import (
 	"encoding/json"
 	"fmt"
 	"os"
+	"runtime/debug"
 	"strconv"
 
 	"verif/internal/chk"
@@ -113,6 +114,8 @@ func workerMain(a []string) {
 		fmt.Fprintln(os.Stderr, "unknown worker kind", kind)
 		os.Exit(2)
 	}
+	// a runaway recursion must die quickly: 128 MiB of stack is far beyond anything the library needs
+	debug.SetMaxStack(128 << 20)
 	w := run.NewW(kind, shard, of, a[6], a[7], a[4], a[5], json.RawMessage(a[3]))
 	f(w)
 	w.Finish()
